@@ -529,6 +529,11 @@ func (c *converter) syncIngressTCP(source *annotations.Source, ing *networking.I
 		hostname := normalizeHostname(rawHostname, tcpServicePort)
 		tcpService, err := c.addTCPService(source, hostname, annTCP)
 		if err != nil {
+			// a refused declaration starts to be valid when the current owner of the tcp service
+			// leaves, its backend should be tracked so it is also changed at that moment
+			if backend := c.findBackend(ing.Namespace, ingressBackend); backend != nil {
+				c.tracker.TrackNames(source.Type, source.FullName(), convtypes.ResourceHABackend, backend.ID)
+			}
 			return err
 		}
 		defer func() {
